@@ -431,9 +431,16 @@ class World:
                             ci.is_model = True
                             changed = True
 
+    @staticmethod
+    def union_members(qname: str):
+        """'*{A|B}' names the union of unrelated classes A, B (a reference discriminated by its class tag)."""
+        if qname.startswith("*{"):
+            return qname[2:-1].split("|")
+        return None
+
     def mro(self, qname: str) -> list[str]:
-        if qname == "*":
-            return ["*"]
+        if qname.startswith("*"):
+            return [qname]
         if qname in self._mro_cache:
             return self._mro_cache[qname]
         ci = self.get_class(qname)
@@ -464,11 +471,22 @@ class World:
     def is_subclass(self, qname: str, base: str) -> bool:
         if base == "*":
             return True
+        um = self.union_members(base)
+        if um is not None:
+            return any(m in self.mro(qname) for m in um)
         return base in self.mro(qname)
 
     def subclasses(self, base: str) -> list[str]:
         if base == "*":
             return [ci.qname for mi in self.modules.values() for ci in mi.classes.values() if not ci.is_enum]
+        um = self.union_members(base)
+        if um is not None:
+            out = []
+            for m in um:
+                for q in self.subclasses(m):
+                    if q not in out:
+                        out.append(q)
+            return out
         out = []
         for mi in self.modules.values():
             for ci in mi.classes.values():
